@@ -145,4 +145,784 @@ theorem nodup_append_new {l : List α} {x : α} (hn : (l.map key).Nodup) (h : lo
   exact h z hz
 
 end Keyed
+
+/-! ### gated updates -/
+section Gated
+variable {α : Type} (key sv : α → Nat)
+
+theorem gatedPut_mem {am : Bool} {l : List α} {x y : α} (h : y ∈ (gatedPut key sv am l x).1) : y ∈ l ∨ y = x := by
+  unfold gatedPut at h
+  split at h
+  · split at h
+    · exact mem_replaceBy key h
+    · exact Or.inl h
+  · split at h
+    · simpa using h
+    · exact Or.inl h
+
+theorem gatedPut_nodup {am : Bool} {l : List α} (x : α) (hn : (l.map key).Nodup) :
+    (((gatedPut key sv am l x).1).map key).Nodup := by
+  unfold gatedPut
+  split
+  · split
+    · exact nodup_replaceBy key x hn
+    · exact hn
+  · rename_i h
+    split
+    · exact nodup_append_new key hn h
+    · exact hn
+
+theorem gatedPut_lookup_mono {am : Bool} {l : List α} (x : α) {k : Nat} {a : α} (h : lookupBy key l k = some a) :
+    ∃ b, lookupBy key (gatedPut key sv am l x).1 k = some b ∧ sv a ≤ sv b := by
+  unfold gatedPut
+  split
+  · rename_i old ho
+    split
+    · rename_i hu
+      rw [hasNewUsableVersion_iff] at hu
+      rw [lookupBy_replaceBy]
+      by_cases hk : k = key x
+      · subst hk
+        rw [ho] at h
+        have := Option.some.inj h
+        subst this
+        exact ⟨x, by simp [ho], by omega⟩
+      · exact ⟨a, by simp [hk, h], Nat.le_refl _⟩
+    · exact ⟨a, h, Nat.le_refl _⟩
+  · split
+    · exact ⟨a, by rw [lookupBy_append, h]; rfl, Nat.le_refl _⟩
+    · exact ⟨a, h, Nat.le_refl _⟩
+
+theorem gatedPut_of_covered {am : Bool} {l : List α} {x : α} (h : Covered key sv l x) :
+    gatedPut key sv am l x = (l, false) := by
+  obtain ⟨a, ha, hle⟩ := h
+  unfold gatedPut
+  rw [ha]
+  have : hasNewUsableVersion (sv a) (sv x) = false := by
+    rw [Bool.eq_false_iff, Ne, hasNewUsableVersion_iff]; omega
+  simp [this]
+
+theorem gatedPut_covers {l : List α} (x : α) : Covered key sv (gatedPut key sv true l x).1 x := by
+  unfold gatedPut
+  split
+  · rename_i old ho
+    split
+    · exact ⟨x, by rw [lookupBy_replaceBy]; simp [ho], Nat.le_refl _⟩
+    · rename_i hu
+      have : ¬ sv old < sv x := fun h => hu ((hasNewUsableVersion_iff _ _).2 h)
+      exact ⟨old, ho, by omega⟩
+  · rename_i hn
+    simp only [if_true]
+    exact ⟨x, by rw [lookupBy_append, hn, lookupBy_cons]; simp, Nat.le_refl _⟩
+
+theorem covered_mono {am : Bool} {l : List α} (x y : α) (h : Covered key sv l y) :
+    Covered key sv (gatedPut key sv am l x).1 y := by
+  obtain ⟨a, ha, hle⟩ := h
+  obtain ⟨b, hb, hab⟩ := gatedPut_lookup_mono key sv (am := am) x ha
+  exact ⟨b, hb, by omega⟩
+
+/-! #### lists of incoming entries -/
+
+theorem gatedPutAll_nil (am : Bool) (l : List α) : gatedPutAll key sv am l [] = (l, []) := rfl
+
+theorem gatedPutAll_cons (am : Bool) (l : List α) (x : α) (xs : List α) :
+    gatedPutAll key sv am l (x :: xs) =
+      ((gatedPutAll key sv am (gatedPut key sv am l x).1 xs).1,
+       if (gatedPut key sv am l x).2 then key x :: (gatedPutAll key sv am (gatedPut key sv am l x).1 xs).2
+       else (gatedPutAll key sv am (gatedPut key sv am l x).1 xs).2) := rfl
+
+theorem gatedPutAll_mem {am : Bool} {xs l : List α} {y : α} (h : y ∈ (gatedPutAll key sv am l xs).1) :
+    y ∈ l ∨ y ∈ xs := by
+  induction xs generalizing l with
+  | nil => exact Or.inl h
+  | cons x xs ih =>
+    rw [gatedPutAll_cons] at h
+    rcases ih h with h1 | h1
+    · rcases gatedPut_mem key sv h1 with h2 | h2
+      · exact Or.inl h2
+      · exact Or.inr (by simp [h2])
+    · exact Or.inr (by simp [h1])
+
+theorem gatedPutAll_nodup {am : Bool} (xs : List α) {l : List α} (hn : (l.map key).Nodup) :
+    (((gatedPutAll key sv am l xs).1).map key).Nodup := by
+  induction xs generalizing l with
+  | nil => exact hn
+  | cons x xs ih => rw [gatedPutAll_cons]; exact ih (gatedPut_nodup key sv x hn)
+
+theorem gatedPutAll_lookup_mono {am : Bool} (xs : List α) {l : List α} {k : Nat} {a : α}
+    (h : lookupBy key l k = some a) :
+    ∃ b, lookupBy key (gatedPutAll key sv am l xs).1 k = some b ∧ sv a ≤ sv b := by
+  induction xs generalizing l a with
+  | nil => exact ⟨a, h, Nat.le_refl _⟩
+  | cons x xs ih =>
+    rw [gatedPutAll_cons]
+    obtain ⟨b, hb, hab⟩ := gatedPut_lookup_mono key sv (am := am) x h
+    obtain ⟨c, hc, hbc⟩ := ih hb
+    exact ⟨c, hc, by omega⟩
+
+theorem gatedPutAll_of_covered {am : Bool} {xs l : List α} (h : ∀ x ∈ xs, Covered key sv l x) :
+    gatedPutAll key sv am l xs = (l, []) := by
+  induction xs with
+  | nil => rfl
+  | cons x xs ih =>
+    rw [gatedPutAll_cons, gatedPut_of_covered key sv (h x (by simp))]
+    simp only [Bool.false_eq_true, if_false]
+    rw [ih (fun y hy => h y (by simp [hy]))]
+
+theorem covered_gatedPutAll_mono {am : Bool} (xs : List α) {l : List α} (y : α) (h : Covered key sv l y) :
+    Covered key sv (gatedPutAll key sv am l xs).1 y := by
+  obtain ⟨a, ha, hle⟩ := h
+  obtain ⟨b, hb, hab⟩ := gatedPutAll_lookup_mono key sv (am := am) xs ha
+  exact ⟨b, hb, by omega⟩
+
+theorem gatedPutAll_covers (xs : List α) (l : List α) :
+    ∀ x ∈ xs, Covered key sv (gatedPutAll key sv true l xs).1 x := by
+  induction xs generalizing l with
+  | nil => intro x hx; cases hx
+  | cons y ys ih =>
+    intro x hx
+    rw [gatedPutAll_cons]
+    rcases List.mem_cons.mp hx with rfl | hx
+    · exact covered_gatedPutAll_mono key sv ys x (gatedPut_covers key sv x)
+    · exact ih _ x hx
+
+end Gated
+
+/-! ### tables -/
+
+theorem keysNodup_iff {α : Type} (key : α → Nat) (l : List α) : keysNodup key l = true ↔ (l.map key).Nodup := by
+  unfold keysNodup; simp
+
+theorem Keeps.refl {α : Type} (key sv : α → Nat) (l : List α) : Keeps key sv l l :=
+  fun _ a h => ⟨a, h, Nat.le_refl _⟩
+
+theorem Keeps.trans {α : Type} {key sv : α → Nat} {l m n : List α} (h1 : Keeps key sv l m) (h2 : Keeps key sv m n) :
+    Keeps key sv l n := by
+  intro k a ha
+  obtain ⟨b, hb, hab⟩ := h1 k a ha
+  obtain ⟨c, hc, hbc⟩ := h2 k b hb
+  exact ⟨c, hc, by omega⟩
+
+theorem keeps_gatedPutAll {α : Type} (key sv : α → Nat) (am : Bool) (l xs : List α) :
+    Keeps key sv l (gatedPutAll key sv am l xs).1 :=
+  fun _ _ h => gatedPutAll_lookup_mono key sv xs h
+
+theorem Keeps.mono {α : Type} {key sv : α → Nat} {l m : List α} (h : Keeps key sv l m) : Mono key sv l m := by
+  intro k a b ha hb
+  obtain ⟨b', hb', hab⟩ := h k a ha
+  rw [hb] at hb'
+  cases hb'
+  exact hab
+
+/-! #### descriptors -/
+
+theorem createDescr_nodup {ds : List Descr} (d : Descr) (h : (ds.map (·.handle)).Nodup) :
+    ((createDescr ds d).map (·.handle)).Nodup := by
+  unfold createDescr
+  split
+  · exact nodup_replaceBy _ d h
+  · rename_i hn; exact nodup_append_new _ h hn
+
+theorem updateDescr_nodup {ds : List Descr} (d : Descr) (h : (ds.map (·.handle)).Nodup) :
+    ((updateDescr ds d).map (·.handle)).Nodup := by
+  unfold updateDescr
+  split
+  · exact nodup_replaceBy _ _ h
+  · exact h
+
+theorem rmDescriptor_wf {t : Tables} (h : Handle) (w : t.Wf) : (rmDescriptor t h).1.Wf := by
+  unfold rmDescriptor
+  split
+  · exact w
+  · exact ⟨nodup_filter_keys _ _ w.d, nodup_filter_keys _ _ w.s, nodup_filter_keys _ _ w.c⟩
+
+theorem applyPart_wf {t : Tables} (p : DescrPart) (w : t.Wf) : (applyPart t p).Wf := by
+  unfold applyPart
+  split
+  · exact ⟨createDescr_nodup _ w.d, gatedPutAll_nodup _ _ _ w.s, gatedPutAll_nodup _ _ _ w.c⟩
+  · refine ⟨updateDescr_nodup _ w.d, gatedPutAll_nodup _ _ _ w.s, gatedPutAll_nodup _ _ _ ?_⟩
+    split
+    · exact nodup_filter_keys _ _ w.c
+    · exact w.c
+  · exact rmDescriptor_wf _ w
+
+theorem applyParts_wf (ps : List DescrPart) {t : Tables} (w : t.Wf) : (applyParts t ps).Wf := by
+  unfold applyParts
+  induction ps generalizing t with
+  | nil => exact w
+  | cons p ps ih => exact ih (applyPart_wf p w)
+
+/-! #### where the states of the tables come from -/
+
+theorem applyPart_states_origin {t : Tables} {p : DescrPart} {x : SState} (h : x ∈ (applyPart t p).states) :
+    x ∈ t.states ∨ x ∈ p.states := by
+  unfold applyPart at h
+  split at h
+  · exact gatedPutAll_mem _ _ h
+  · exact gatedPutAll_mem _ _ h
+  · unfold rmDescriptor at h
+    split at h
+    · exact Or.inl h
+    · exact Or.inl (List.mem_filter.mp h).1
+
+theorem applyPart_cstates_origin {t : Tables} {p : DescrPart} {x : CState} (h : x ∈ (applyPart t p).cstates) :
+    x ∈ t.cstates ∨ x ∈ p.cstates := by
+  unfold applyPart at h
+  split at h
+  · exact gatedPutAll_mem _ _ h
+  · rcases gatedPutAll_mem _ _ h with h1 | h1
+    · left
+      split at h1
+      · exact (List.mem_filter.mp h1).1
+      · exact h1
+    · exact Or.inr h1
+  · unfold rmDescriptor at h
+    split at h
+    · exact Or.inl h
+    · exact Or.inl (List.mem_filter.mp h).1
+
+theorem applyParts_states_origin {ps : List DescrPart} {t : Tables} {x : SState} (h : x ∈ (applyParts t ps).states) :
+    x ∈ t.states ∨ ∃ p ∈ ps, x ∈ p.states := by
+  unfold applyParts at h
+  induction ps generalizing t with
+  | nil => exact Or.inl h
+  | cons p ps ih =>
+    rcases ih h with h1 | ⟨q, hq, hx⟩
+    · rcases applyPart_states_origin h1 with h2 | h2
+      · exact Or.inl h2
+      · exact Or.inr ⟨p, by simp, h2⟩
+    · exact Or.inr ⟨q, by simp [hq], hx⟩
+
+theorem applyParts_cstates_origin {ps : List DescrPart} {t : Tables} {x : CState} (h : x ∈ (applyParts t ps).cstates) :
+    x ∈ t.cstates ∨ ∃ p ∈ ps, x ∈ p.cstates := by
+  unfold applyParts at h
+  induction ps generalizing t with
+  | nil => exact Or.inl h
+  | cons p ps ih =>
+    rcases ih h with h1 | ⟨q, hq, hx⟩
+    · rcases applyPart_cstates_origin h1 with h2 | h2
+      · exact Or.inl h2
+      · exact Or.inr ⟨p, by simp, h2⟩
+    · exact Or.inr ⟨q, by simp [hq], hx⟩
+
+/-! ### one report -/
+
+theorem applyReport_wf {c : Core} (r : Report) (w : c.tabs.Wf) : (applyReport c r).1.tabs.Wf := by
+  unfold applyReport
+  split
+  · split
+    · exact ⟨w.d, w.s, gatedPutAll_nodup _ _ _ w.c⟩
+    · exact applyParts_wf _ w
+    · exact ⟨w.d, gatedPutAll_nodup _ _ _ w.s, w.c⟩
+  · exact w
+
+theorem applyReport_states_origin {c : Core} {r : Report} {x : SState}
+    (h : x ∈ (applyReport c r).1.tabs.states) : x ∈ c.tabs.states ∨ x ∈ allStates r := by
+  unfold applyReport at h
+  unfold allStates
+  split at h
+  · split at h
+    · exact Or.inl h
+    · rcases applyParts_states_origin h with h1 | ⟨p, hp, hx⟩
+      · exact Or.inl h1
+      · exact Or.inr (List.mem_append_right _ (List.mem_flatMap.mpr ⟨p, hp, hx⟩))
+    · rcases gatedPutAll_mem _ _ h with h1 | h1
+      · exact Or.inl h1
+      · exact Or.inr (List.mem_append_left _ h1)
+  · exact Or.inl h
+
+theorem applyReport_cstates_origin {c : Core} {r : Report} {x : CState}
+    (h : x ∈ (applyReport c r).1.tabs.cstates) : x ∈ c.tabs.cstates ∨ x ∈ allCStates r := by
+  unfold applyReport at h
+  unfold allCStates
+  split at h
+  · split at h
+    · rcases gatedPutAll_mem _ _ h with h1 | h1
+      · exact Or.inl h1
+      · exact Or.inr (List.mem_append_left _ h1)
+    · rcases applyParts_cstates_origin h with h1 | ⟨p, hp, hx⟩
+      · exact Or.inl h1
+      · exact Or.inr (List.mem_append_right _ (List.mem_flatMap.mpr ⟨p, hp, hx⟩))
+    · exact Or.inl h
+  · exact Or.inl h
+
+theorem canAccept_iff (c : Core) (r : Report) : canAccept c r = true ↔ c.vg.ver ≤ r.vg.ver := by
+  unfold canAccept; simp
+
+theorem applyReport_vg (c : Core) (r : Report) :
+    (applyReport c r).1.vg = if c.vg.ver ≤ r.vg.ver then r.vg else c.vg := by
+  unfold applyReport
+  by_cases h : c.vg.ver ≤ r.vg.ver
+  · rw [(canAccept_iff c r).2 h]; simp only [if_true, h]; split <;> rfl
+  · have : canAccept c r = false := by rw [Bool.eq_false_iff, Ne, canAccept_iff]; exact h
+    rw [this]; simp [h]
+
+theorem applyReport_ver_le (c : Core) (r : Report) : c.vg.ver ≤ (applyReport c r).1.vg.ver := by
+  rw [applyReport_vg]; split <;> omega
+
+/-- a report older than the MDIB version changes nothing and names nothing -/
+theorem applyReport_stale {c : Core} {r : Report} (h : r.vg.ver < c.vg.ver) :
+    applyReport c r = (c, { kind := r.kind }) := by
+  have : canAccept c r = false := by rw [Bool.eq_false_iff, Ne, canAccept_iff]; omega
+  unfold applyReport; rw [this]; rfl
+
+/-! #### states persist, versions do not decrease -/
+
+theorem applyPart_keeps {t : Tables} {p : DescrPart} (h : partNonRemoving p = true) :
+    Keeps (·.dh) (·.sv) t.states (applyPart t p).states ∧ Keeps (·.h) (·.sv) t.cstates (applyPart t p).cstates := by
+  unfold partNonRemoving at h
+  unfold applyPart
+  split
+  · exact ⟨keeps_gatedPutAll _ _ _ _ _, keeps_gatedPutAll _ _ _ _ _⟩
+  · rename_i hm
+    have hk : (p.descr.kind == Kind.context) = false := by simpa [hm] using h
+    simp only [hk]
+    exact ⟨keeps_gatedPutAll _ _ _ _ _, keeps_gatedPutAll _ _ _ _ _⟩
+  · rename_i hm; simp [hm] at h
+
+theorem applyParts_keeps {ps : List DescrPart} {t : Tables} (h : ps.all partNonRemoving = true) :
+    Keeps (·.dh) (·.sv) t.states (applyParts t ps).states ∧ Keeps (·.h) (·.sv) t.cstates (applyParts t ps).cstates := by
+  unfold applyParts
+  induction ps generalizing t with
+  | nil => exact ⟨Keeps.refl _ _ _, Keeps.refl _ _ _⟩
+  | cons p ps ih =>
+    simp only [List.all_cons, Bool.and_eq_true] at h
+    have h1 := applyPart_keeps (t := t) h.1
+    have h2 := ih (t := applyPart t p) h.2
+    exact ⟨h1.1.trans h2.1, h1.2.trans h2.2⟩
+
+theorem applyReport_keeps {c : Core} {r : Report} (h : nonRemoving r = true) :
+    Keeps (·.dh) (·.sv) c.tabs.states (applyReport c r).1.tabs.states ∧
+    Keeps (·.h) (·.sv) c.tabs.cstates (applyReport c r).1.tabs.cstates := by
+  unfold applyReport
+  split
+  · split
+    · exact ⟨Keeps.refl _ _ _, keeps_gatedPutAll _ _ _ _ _⟩
+    · rename_i hk
+      unfold nonRemoving at h
+      simp [hk] at h
+      exact applyParts_keeps (by simpa using h)
+    · exact ⟨keeps_gatedPutAll _ _ _ _ _, Keeps.refl _ _ _⟩
+  · exact ⟨Keeps.refl _ _ _, Keeps.refl _ _ _⟩
+
+/-! ### replay of the buffer, steps, runs -/
+
+theorem applyReport_seq {c : Core} {r : Report} (h : r.vg.seq = c.vg.seq) : (applyReport c r).1.vg.seq = c.vg.seq := by
+  rw [applyReport_vg]; split <;> simp [h]
+
+theorem replay_eq_applyAll (v0 : Nat) (rs : List Report) (c : Core) :
+    replay v0 c rs = applyAll c (rs.filter (replayable v0 c.vg.seq)) := by
+  induction rs generalizing c with
+  | nil => rfl
+  | cons r rs ih =>
+    unfold replay
+    by_cases h1 : r.vg.seq = c.vg.seq
+    · by_cases h2 : r.vg.ver ≤ v0
+      · have : replayable v0 c.vg.seq r = false := by unfold replayable; simp; intro _; omega
+        simp only [h1, bne_self_eq_false, Bool.false_eq_true, if_false, h2, if_true, List.filter_cons, this]
+        exact ih c
+      · have : replayable v0 c.vg.seq r = true := by unfold replayable; simp [h1]; omega
+        simp only [h1, bne_self_eq_false, Bool.false_eq_true, if_false, h2, List.filter_cons, this, if_true]
+        rw [ih, applyReport_seq h1]
+        rfl
+    · have : replayable v0 c.vg.seq r = false := by unfold replayable; simp [h1]
+      have hne : (r.vg.seq != c.vg.seq) = true := by simp [h1]
+      simp only [hne, if_true, List.filter_cons, this, Bool.false_eq_true, if_false]
+      exact ih c
+
+theorem applyAll_wf (rs : List Report) {c : Core} (w : c.tabs.Wf) : (applyAll c rs).1.tabs.Wf := by
+  induction rs generalizing c with
+  | nil => exact w
+  | cons r rs ih => exact ih (applyReport_wf r w)
+
+theorem applyAll_ver_le (rs : List Report) (c : Core) : c.vg.ver ≤ (applyAll c rs).1.vg.ver := by
+  induction rs generalizing c with
+  | nil => exact Nat.le_refl _
+  | cons r rs ih => exact Nat.le_trans (applyReport_ver_le c r) (ih _)
+
+theorem applyAll_states_origin {rs : List Report} {c : Core} {x : SState} (h : x ∈ (applyAll c rs).1.tabs.states) :
+    x ∈ c.tabs.states ∨ ∃ r ∈ rs, x ∈ allStates r := by
+  induction rs generalizing c with
+  | nil => exact Or.inl h
+  | cons r rs ih =>
+    rcases ih h with h1 | ⟨q, hq, hx⟩
+    · rcases applyReport_states_origin h1 with h2 | h2
+      · exact Or.inl h2
+      · exact Or.inr ⟨r, by simp, h2⟩
+    · exact Or.inr ⟨q, by simp [hq], hx⟩
+
+theorem applyAll_cstates_origin {rs : List Report} {c : Core} {x : CState} (h : x ∈ (applyAll c rs).1.tabs.cstates) :
+    x ∈ c.tabs.cstates ∨ ∃ r ∈ rs, x ∈ allCStates r := by
+  induction rs generalizing c with
+  | nil => exact Or.inl h
+  | cons r rs ih =>
+    rcases ih h with h1 | ⟨q, hq, hx⟩
+    · rcases applyReport_cstates_origin h1 with h2 | h2
+      · exact Or.inl h2
+      · exact Or.inr ⟨r, by simp, h2⟩
+    · exact Or.inr ⟨q, by simp [hq], hx⟩
+
+theorem applyAll_keeps {rs : List Report} {c : Core} (h : ∀ r ∈ rs, nonRemoving r = true) :
+    Keeps (·.dh) (·.sv) c.tabs.states (applyAll c rs).1.tabs.states ∧
+    Keeps (·.h) (·.sv) c.tabs.cstates (applyAll c rs).1.tabs.cstates := by
+  induction rs generalizing c with
+  | nil => exact ⟨Keeps.refl _ _ _, Keeps.refl _ _ _⟩
+  | cons r rs ih =>
+    have h1 := applyReport_keeps (c := c) (h r (by simp))
+    have h2 := ih (c := (applyReport c r).1) (fun q hq => h q (by simp [hq]))
+    exact ⟨h1.1.trans h2.1, h1.2.trans h2.2⟩
+
+/-! #### one event -/
+
+theorem snapshot_wf_iff (s : Snapshot) (ctx2 : List CState) :
+    s.wf ctx2 = true ↔ (s.descrs.map (·.handle)).Nodup ∧ (s.states.map (·.dh)).Nodup ∧ (s.cstates.map (·.h)).Nodup ∧
+      (ctx2.map (·.h)).Nodup := by
+  unfold Snapshot.wf
+  simp only [Bool.and_eq_true, keysNodup_iff]
+  constructor
+  · rintro ⟨⟨⟨a, b⟩, c⟩, d⟩; exact ⟨a, b, c, d⟩
+  · rintro ⟨a, b, c, d⟩; exact ⟨⟨⟨a, b⟩, c⟩, d⟩
+
+theorem loadSnapshot_wf {s : Snapshot} {ctx2 : List CState} (h : s.wf ctx2 = true) : (loadSnapshot s ctx2).tabs.Wf := by
+  rw [snapshot_wf_iff] at h
+  unfold loadSnapshot
+  refine ⟨h.1, h.2.1, ?_⟩
+  simp only
+  split
+  · exact h.2.2.2
+  · exact h.2.2.1
+
+/-- `step` on a report, by the state of the consumer -/
+theorem step_report_invalid {s : St} (r : Report) (h : s.mode = .invalid) : step s (.report r) = (s, []) := by
+  unfold step
+  simp [h]
+
+theorem step_report_initializing {s : St} (r : Report) (h : s.mode = .initializing) :
+    step s (.report r) = ({ s with buf := s.buf ++ [r] }, []) := by
+  unfold step
+  simp [h]
+
+theorem step_report_changed {s : St} (r : Report) (h : s.mode = .initialized) (hd : idsDiffer s.core r = true) :
+    step s (.report r) = ({ s with mode := .invalid }, [{ kind := r.kind, idChanged := true }]) := by
+  unfold step
+  simp [h, hd]
+
+theorem step_report_ok {s : St} (r : Report) (h : s.mode = .initialized) (hd : idsDiffer s.core r = false) :
+    step s (.report r) = ({ s with core := (applyReport s.core r).1 }, [(applyReport s.core r).2]) := by
+  unfold step
+  simp [h, hd]
+
+theorem step_reloadEnd {s : St} (snap : Snapshot) (ctx2 : List CState) (h : s.mode = .initializing)
+    (hw : snap.wf ctx2 = true) :
+    step s (.reloadEnd snap ctx2) =
+      (⟨.initialized, (replay snap.vg.ver (loadSnapshot snap ctx2) s.buf).1, []⟩,
+       (replay snap.vg.ver (loadSnapshot snap ctx2) s.buf).2) := by
+  unfold step
+  simp [h, hw, loadSnapshot]
+
+/-- the four cases of a report event -/
+theorem step_report_cases (s : St) (r : Report) :
+    (s.mode = .invalid ∧ step s (.report r) = (s, [])) ∨
+    (s.mode = .initializing ∧ step s (.report r) = ({ s with buf := s.buf ++ [r] }, [])) ∨
+    (s.mode = .initialized ∧ idsDiffer s.core r = true ∧
+      step s (.report r) = ({ s with mode := .invalid }, [{ kind := r.kind, idChanged := true }])) ∨
+    (s.mode = .initialized ∧ idsDiffer s.core r = false ∧
+      step s (.report r) = ({ s with core := (applyReport s.core r).1 }, [(applyReport s.core r).2])) := by
+  have hmode : s.mode = .invalid ∨ s.mode = .initializing ∨ s.mode = .initialized := by cases s.mode <;> simp
+  rcases hmode with hm | hm | hm
+  · exact Or.inl ⟨hm, step_report_invalid r hm⟩
+  · exact Or.inr (Or.inl ⟨hm, step_report_initializing r hm⟩)
+  · cases hd : idsDiffer s.core r
+    · exact Or.inr (Or.inr (Or.inr ⟨hm, rfl, step_report_ok r hm hd⟩))
+    · exact Or.inr (Or.inr (Or.inl ⟨hm, rfl, step_report_changed r hm hd⟩))
+
+theorem step_wf {s : St} (e : Event) (w : s.core.tabs.Wf) : (step s e).1.core.tabs.Wf := by
+  cases e with
+  | report r =>
+    rcases step_report_cases s r with ⟨_, h⟩ | ⟨_, h⟩ | ⟨_, _, h⟩ | ⟨_, _, h⟩ <;> rw [h]
+    · exact w
+    · exact w
+    · exact w
+    · exact applyReport_wf r w
+  | reloadBegin => exact ⟨List.nodup_nil, List.nodup_nil, List.nodup_nil⟩
+  | reloadEnd snap ctx2 =>
+    by_cases hm : s.mode = .initializing
+    · by_cases hw : snap.wf ctx2 = true
+      · rw [step_reloadEnd snap ctx2 hm hw, replay_eq_applyAll]
+        exact applyAll_wf _ (loadSnapshot_wf hw)
+      · unfold step; simp [hm, hw]; exact w
+    · unfold step; simp [hm]; exact w
+
+theorem run_nil (s : St) : run s [] = s := rfl
+theorem run_cons (s : St) (e : Event) (evs : List Event) : run s (e :: evs) = run (step s e).1 evs := rfl
+
+theorem run_append (s : St) (e1 e2 : List Event) : run s (e1 ++ e2) = run (run s e1) e2 := by
+  unfold run; rw [List.foldl_append]
+
+theorem run_wf (evs : List Event) {s : St} (w : s.core.tabs.Wf) : (run s evs).core.tabs.Wf := by
+  induction evs generalizing s with
+  | nil => exact w
+  | cons e evs ih => rw [run_cons]; exact ih (step_wf e w)
+
+/-! ### invariants over arbitrary event lists -/
+
+/-- every single state in the tables or in the buffer satisfies `P` -/
+def StatesFrom (P : SState → Prop) (s : St) : Prop :=
+  (∀ x ∈ s.core.tabs.states, P x) ∧ (∀ r ∈ s.buf, ∀ x ∈ allStates r, P x)
+
+def CStatesFrom (P : CState → Prop) (s : St) : Prop :=
+  (∀ x ∈ s.core.tabs.cstates, P x) ∧ (∀ r ∈ s.buf, ∀ x ∈ allCStates r, P x)
+
+theorem step_statesFrom {P : SState → Prop} {s : St} (e : Event) (hs : StatesFrom P s) (he : ∀ x ∈ eventStates e, P x) :
+    StatesFrom P (step s e).1 := by
+  cases e with
+  | report r =>
+    rcases step_report_cases s r with ⟨_, h⟩ | ⟨_, h⟩ | ⟨_, _, h⟩ | ⟨_, _, h⟩ <;> rw [h]
+    · exact hs
+    · refine ⟨hs.1, ?_⟩
+      intro q hq x hx
+      rcases List.mem_append.mp hq with h1 | h1
+      · exact hs.2 q h1 x hx
+      · simp only [List.mem_singleton] at h1; subst h1; exact he x hx
+    · exact hs
+    · refine ⟨?_, hs.2⟩
+      intro x hx
+      rcases applyReport_states_origin hx with h1 | h1
+      · exact hs.1 x h1
+      · exact he x h1
+  | reloadBegin => exact And.intro (fun x hx => nomatch hx) hs.2
+  | reloadEnd snap ctx2 =>
+    by_cases hm : s.mode = .initializing
+    · by_cases hw : snap.wf ctx2 = true
+      · rw [step_reloadEnd snap ctx2 hm hw, replay_eq_applyAll]
+        refine ⟨?_, by intro r hr; cases hr⟩
+        intro x hx
+        rcases applyAll_states_origin hx with h1 | ⟨q, hq, hx⟩
+        · exact he x h1
+        · exact hs.2 q (List.mem_filter.mp hq).1 x hx
+      · unfold step; simp [hm, hw]; exact hs
+    · unfold step; simp [hm]; exact hs
+
+theorem step_cstatesFrom {P : CState → Prop} {s : St} (e : Event) (hs : CStatesFrom P s) (he : ∀ x ∈ eventCStates e, P x) :
+    CStatesFrom P (step s e).1 := by
+  cases e with
+  | report r =>
+    rcases step_report_cases s r with ⟨_, h⟩ | ⟨_, h⟩ | ⟨_, _, h⟩ | ⟨_, _, h⟩ <;> rw [h]
+    · exact hs
+    · refine ⟨hs.1, ?_⟩
+      intro q hq x hx
+      rcases List.mem_append.mp hq with h1 | h1
+      · exact hs.2 q h1 x hx
+      · simp only [List.mem_singleton] at h1; subst h1; exact he x hx
+    · exact hs
+    · refine ⟨?_, hs.2⟩
+      intro x hx
+      rcases applyReport_cstates_origin hx with h1 | h1
+      · exact hs.1 x h1
+      · exact he x h1
+  | reloadBegin => exact And.intro (fun x hx => nomatch hx) hs.2
+  | reloadEnd snap ctx2 =>
+    by_cases hm : s.mode = .initializing
+    · by_cases hw : snap.wf ctx2 = true
+      · rw [step_reloadEnd snap ctx2 hm hw, replay_eq_applyAll]
+        refine ⟨?_, by intro r hr; cases hr⟩
+        intro x hx
+        rcases applyAll_cstates_origin hx with h1 | ⟨q, hq, hx⟩
+        · apply he x
+          unfold loadSnapshot at h1
+          simp only [eventCStates] at h1 ⊢
+          split at h1
+          · exact List.mem_append_right _ h1
+          · exact List.mem_append_left _ h1
+        · exact hs.2 q (List.mem_filter.mp hq).1 x hx
+      · unfold step; simp [hm, hw]; exact hs
+    · unfold step; simp [hm]; exact hs
+
+theorem run_statesFrom {P : SState → Prop} (evs : List Event) {s : St} (hs : StatesFrom P s)
+    (he : ∀ e ∈ evs, ∀ x ∈ eventStates e, P x) : StatesFrom P (run s evs) := by
+  induction evs generalizing s with
+  | nil => exact hs
+  | cons e evs ih =>
+    rw [run_cons]
+    exact ih (step_statesFrom e hs (he e (by simp))) (fun e' h' => he e' (by simp [h']))
+
+theorem run_cstatesFrom {P : CState → Prop} (evs : List Event) {s : St} (hs : CStatesFrom P s)
+    (he : ∀ e ∈ evs, ∀ x ∈ eventCStates e, P x) : CStatesFrom P (run s evs) := by
+  induction evs generalizing s with
+  | nil => exact hs
+  | cons e evs ih =>
+    rw [run_cons]
+    exact ih (step_cstatesFrom e hs (he e (by simp))) (fun e' h' => he e' (by simp [h']))
+
+/-! #### report events only -/
+
+theorem step_report_ver_le (s : St) (r : Report) : s.core.vg.ver ≤ (step s (.report r)).1.core.vg.ver := by
+  rcases step_report_cases s r with ⟨_, h⟩ | ⟨_, h⟩ | ⟨_, _, h⟩ | ⟨_, _, h⟩ <;> rw [h]
+  · exact Nat.le_refl _
+  · exact Nat.le_refl _
+  · exact Nat.le_refl _
+  · exact applyReport_ver_le _ _
+
+theorem step_report_keeps {s : St} {r : Report} (hr : nonRemoving r = true) :
+    Keeps (·.dh) (·.sv) s.core.tabs.states (step s (.report r)).1.core.tabs.states ∧
+    Keeps (·.h) (·.sv) s.core.tabs.cstates (step s (.report r)).1.core.tabs.cstates := by
+  rcases step_report_cases s r with ⟨_, h⟩ | ⟨_, h⟩ | ⟨_, _, h⟩ | ⟨_, _, h⟩ <;> rw [h]
+  · exact ⟨Keeps.refl _ _ _, Keeps.refl _ _ _⟩
+  · exact ⟨Keeps.refl _ _ _, Keeps.refl _ _ _⟩
+  · exact ⟨Keeps.refl _ _ _, Keeps.refl _ _ _⟩
+  · exact applyReport_keeps hr
+
+theorem run_reports_ver_le (rs : List Report) (s : St) : s.core.vg.ver ≤ (run s (rs.map .report)).core.vg.ver := by
+  induction rs generalizing s with
+  | nil => exact Nat.le_refl _
+  | cons r rs ih => rw [List.map_cons, run_cons]; exact Nat.le_trans (step_report_ver_le s r) (ih _)
+
+theorem run_reports_keeps {rs : List Report} {s : St} (h : ∀ r ∈ rs, nonRemoving r = true) :
+    Keeps (·.dh) (·.sv) s.core.tabs.states (run s (rs.map .report)).core.tabs.states ∧
+    Keeps (·.h) (·.sv) s.core.tabs.cstates (run s (rs.map .report)).core.tabs.cstates := by
+  induction rs generalizing s with
+  | nil => exact ⟨Keeps.refl _ _ _, Keeps.refl _ _ _⟩
+  | cons r rs ih =>
+    rw [List.map_cons, run_cons]
+    have h1 := step_report_keeps (s := s) (h r (by simp))
+    have h2 := ih (s := (step s (.report r)).1) (fun q hq => h q (by simp [hq]))
+    exact ⟨h1.1.trans h2.1, h1.2.trans h2.2⟩
+
+theorem run_reports_invalid {rs : List Report} {s : St} (h : s.mode = .invalid) : run s (rs.map .report) = s := by
+  induction rs with
+  | nil => rfl
+  | cons r rs ih => rw [List.map_cons, run_cons, step_report_invalid r h]; exact ih
+
+theorem run_reports_initializing {rs : List Report} {s : St} (h : s.mode = .initializing) :
+    run s (rs.map .report) = { s with buf := s.buf ++ rs } := by
+  induction rs generalizing s with
+  | nil => simp [run_nil]
+  | cons r rs ih =>
+    rw [List.map_cons, run_cons, step_report_initializing r h]
+    rw [ih (s := { s with buf := s.buf ++ [r] }) h]
+    simp
+
+/-! ### duplicates -/
+
+theorem Covered.keeps {α : Type} {key sv : α → Nat} {l l' : List α} {x : α} (h : Covered key sv l x)
+    (hk : Keeps key sv l l') : Covered key sv l' x := by
+  obtain ⟨a, ha, hle⟩ := h
+  obtain ⟨b, hb, hab⟩ := hk _ a ha
+  exact ⟨b, hb, by omega⟩
+
+/-- UPDATE parts: an entry that is missing or covered leaves the table as it is -/
+theorem gatedPutAll_noop_update {α : Type} (key sv : α → Nat) {xs l : List α}
+    (h : ∀ x ∈ xs, lookupBy key l (key x) = none ∨ Covered key sv l x) :
+    gatedPutAll key sv false l xs = (l, []) := by
+  induction xs with
+  | nil => rfl
+  | cons x xs ih =>
+    have hx : gatedPut key sv false l x = (l, false) := by
+      rcases h x (by simp) with h1 | h1
+      · unfold gatedPut; rw [h1]; simp
+      · exact gatedPut_of_covered key sv h1
+    rw [gatedPutAll_cons, hx]
+    simp only [Bool.false_eq_true, if_false]
+    rw [ih (fun y hy => h y (by simp [hy]))]
+
+theorem applyReport_of_covered {c : Core} {r : Report} (hk : r.kind ≠ .description) (h : StatesCovered c r) :
+    (applyReport c r).1.tabs = c.tabs ∧ (applyReport c r).2 = { kind := r.kind } := by
+  unfold StatesCovered at h
+  unfold applyReport
+  split
+  · split
+    · rename_i hkc
+      simp only [hkc, if_true] at h
+      rw [gatedPutAll_of_covered _ _ h]
+      exact ⟨rfl, by rw [hkc]⟩
+    · rename_i hkd; exact absurd hkd hk
+    · rename_i hnc _
+      have : ¬ r.kind = .context := fun e => hnc e
+      simp only [this, if_false] at h
+      rw [gatedPutAll_of_covered _ _ h]
+      exact ⟨rfl, rfl⟩
+  · exact ⟨rfl, rfl⟩
+
+theorem applyReport_covers {c : Core} {r : Report} (hk : r.kind ≠ .description) (hv : c.vg.ver ≤ r.vg.ver) :
+    StatesCovered (applyReport c r).1 r := by
+  have hacc := (canAccept_iff c r).2 hv
+  unfold StatesCovered
+  by_cases hkc : r.kind = .context
+  · simp only [hkc, if_true]
+    have : (applyReport c r).1.tabs.cstates = (gatedPutAll (·.h) (·.sv) true c.tabs.cstates r.cstates).1 := by
+      unfold applyReport; rw [hacc]; simp only [if_true, hkc]
+    rw [this]
+    exact gatedPutAll_covers _ _ _ _
+  · simp only [hkc, if_false]
+    have : (applyReport c r).1.tabs.states = (gatedPutAll (·.dh) (·.sv) true c.tabs.states r.states).1 := by
+      unfold applyReport; rw [hacc]; simp only [if_true]
+      all_goals (cases hkk : r.kind <;> simp_all)
+    rw [this]
+    exact gatedPutAll_covers _ _ _ _
+
+theorem StatesCovered.keeps {c c' : Core} {r : Report} (h : StatesCovered c r)
+    (h1 : Keeps (·.dh) (·.sv) c.tabs.states c'.tabs.states) (h2 : Keeps (·.h) (·.sv) c.tabs.cstates c'.tabs.cstates) :
+    StatesCovered c' r := by
+  unfold StatesCovered at h ⊢
+  split
+  · rename_i hk; simp only [hk, if_true] at h; exact fun x hx => (h x hx).keeps h2
+  · rename_i hk; simp only [hk, if_false] at h; exact fun x hx => (h x hx).keeps h1
+
+/-! #### description modification reports -/
+
+theorem applyPart_of_settled {t : Tables} {p : DescrPart} (w : t.Wf) (h : partSettled t p) : applyPart t p = t := by
+  unfold partSettled at h
+  unfold applyPart
+  split
+  · rename_i hm
+    simp only [hm] at h
+    obtain ⟨hd, hs, hc⟩ := h
+    have e1 : createDescr t.descrs p.descr = t.descrs := by
+      unfold createDescr; rw [hd]; exact replaceBy_self_of_lookup _ w.d hd
+    rw [e1, gatedPutAll_of_covered _ _ hs, gatedPutAll_of_covered _ _ hc]
+  · rename_i hm
+    simp only [hm] at h
+    obtain ⟨hd, hf, hs, hc⟩ := h
+    have e1 : updateDescr t.descrs p.descr = t.descrs := by
+      unfold updateDescr
+      split
+      · rename_i old ho
+        have := hd old ho
+        have ho' : lookupBy (·.handle) t.descrs ({ p.descr with parent := old.parent, mds := old.mds } : Descr).handle
+            = some { p.descr with parent := old.parent, mds := old.mds } := by
+          have hh := (lookupBy_some_mem _ ho).2
+          rw [← this, hh]; exact ho
+        exact replaceBy_self_of_lookup _ w.d ho'
+      · rfl
+    have e2 : (if p.descr.kind == Kind.context
+        then t.cstates.filter (fun s => !(s.dh == p.descr.handle &&
+          !((p.cstates.filter (fun s => s.dh == p.descr.handle)).map (·.h)).contains s.h))
+        else t.cstates) = t.cstates := by
+      split
+      · rename_i hk
+        have hk' : p.descr.kind = Kind.context := by simpa using hk
+        apply List.filter_eq_self.mpr
+        intro s hs'
+        by_cases hdh : s.dh = p.descr.handle
+        · have := hf hk' s hs' hdh
+          simp [hdh, List.contains_iff_mem, this]
+        · simp [hdh]
+      · rfl
+    rw [e1]
+    simp only at e2 ⊢
+    rw [e2, gatedPutAll_noop_update _ _ hs, gatedPutAll_noop_update _ _ hc]
+  · rename_i hm
+    simp only [hm] at h
+    unfold rmDescriptor
+    rw [h]
+
+theorem applyParts_of_settled {ps : List DescrPart} {t : Tables} (w : t.Wf) (h : ∀ p ∈ ps, partSettled t p) :
+    applyParts t ps = t := by
+  unfold applyParts
+  induction ps with
+  | nil => rfl
+  | cons p ps ih =>
+    rw [List.foldl_cons, applyPart_of_settled w (h p (by simp))]
+    exact ih (fun q hq => h q (by simp [hq]))
+
 end Sdc.Consumer
